@@ -184,6 +184,10 @@ class HistoryGen:
         elif r < 0.83 and len(m.charts) >= 2:
             i, j = sorted(rng.sample(range(len(m.charts)), 2))
             op = ["c_swap", i, j]
+        elif r < 0.85 and m.charts and self.kind == "sm":
+            i = rng.randrange(len(m.charts))
+            spec = {"f": m.charts[i].six(), "x": [V.rvalue(rng, allow_cr=True, long_ok=False) + "twin"], "via": "from_msd"}
+            op = ["c_append", spec]  # a twin of chart i that differs only in its extra components
         elif m.charts:
             i = rng.randrange(len(m.charts))
             c = m.charts[i]
